@@ -129,12 +129,12 @@ fn bait(rng: &mut Rng, g: &ExprGen, cols: &[(String, Ty)]) -> Expr {
         15 => {
             // boolean CASE (rewritten into AND/OR)
             let n = 1 + rng.below(2) as usize;
-            let bl = |rng: &mut Rng| if rng.chance(1, 2) { Expr::Lit(*rng.pick(&[Val::Bool(true), Val::Bool(false), Val::Null]), Ty::Bool, false) } else { g.expr(rng, Ty::Bool, 1) };
+            let bl = |rng: &mut Rng| if rng.chance(1, 2) { Expr::Lit(rng.pick(&[Val::Bool(true), Val::Bool(false), Val::Null]).clone(), Ty::Bool, false) } else { g.expr(rng, Ty::Bool, 1) };
             Expr::Case(None, (0..n).map(|_| (g.expr(rng, Ty::Bool, 1), bl(rng))).collect(), if rng.chance(2, 3) { Some(b(bl(rng))) } else { None })
         }
         16 => {
             let a = bool_e(rng);
-            let l = Expr::Lit(*rng.pick(&[Val::Bool(true), Val::Bool(false), Val::Null]), Ty::Bool, false);
+            let l = Expr::Lit(rng.pick(&[Val::Bool(true), Val::Bool(false), Val::Null]).clone(), Ty::Bool, false);
             let op = *rng.pick(&[Op::Eq, Op::Ne, Op::And, Op::Or, Op::Distinct, Op::NotDistinct]);
             if rng.chance(1, 2) { Expr::bin(op, a, l) } else { Expr::bin(op, l, a) }
         }
@@ -236,7 +236,8 @@ pub fn run(run: &mut Run, args: &Args) {
             embed(&mut rng, &g, raw, is_bool)
         } else {
             let ty = if rng.chance(2, 3) { Ty::Bool } else { gen_ty(&mut rng) };
-            g.expr(&mut rng, ty, 1 + rng.below(if run.thorough() { 4 } else { 3 }) as u32)
+            let dd = 1 + rng.below(if run.thorough() { 4 } else { 3 }) as u32;
+            g.expr(&mut rng, ty, dd)
         };
         // `embed` may have wrapped a non-boolean bait in boolean operators: keep only well-typed trees
         let schema = schema_with_nullability(&cols, &nullable);
